@@ -15,7 +15,8 @@ RULE = ("group: random complex fields (N even <= 64), programs of 1-6 signed ang
         "physical intermediate plane; values AND orientation). gaussian: off-axis Gaussian beams, parameters solved from "
         "containment criteria (4.5 w inside every window the algorithm uses), each propagator vs the analytic "
         "q-parameter solution (1e-6 rel. L2). airy: lensAgainst(circle) ladder vs [2J1(x)/x]^2. Non-trivial: group >=3 "
-        "steps with mixed signs; differential asymmetric field; gaussian off-axis and m != 1. Distinct = canonical JSON.")
+        "steps with mixed signs; differential asymmetric field; gaussian off-axis and m != 1. Distinct = canonical JSON."
+        " Law threads: angularSpectrum with different geometries on one grid size.")
 ASSUMPTIONS = ["Fresnel convention without exp(ikz), as in the code and Schmidt (2010)",
                "one-step/lens output lives on the physical grid j*lambda*z/(N d1) (negative spacing for z<0)",
                "Airy: relative L2 error <= 1/R for a pixelated disc of radius R pixels (trend check, last rung better than first)"]
